@@ -22,10 +22,26 @@ def pj(deps):
     return '{\n  "dependencies": {\n' + body + "\n  }\n}"
 
 
+P = "file:///w/c/pnpm-workspace.yaml"      # a document of ANOTHER registry type (pnpm catalog) that may name the same packages
+
+
+def eco_of(uri):
+    """(parser name for l.parse, registry type for l.reply)"""
+    return ("pnpm", "pnpm_catalog") if uri.endswith(".yaml") else ("npm", "npm")
+
+
+def text_of(uri, deps):
+    if uri.endswith(".yaml"):
+        return ("catalog:\n" + "".join(f"  {n}: {s}\n" for n, s in deps)) if deps else "packages:\n  - 'a/*'\n"
+    return pj(deps)
+
+
 def scenario(rng):
     docs = {"file:///w/a/package.json": "npm"}
     if rng.chance(1, 2):
         docs["file:///w/b/package.json"] = "npm"
+    if rng.chance(1, 3):
+        docs[P] = "pnpm"
     L = [vlib.line("l.start", "T"), vlib.line("l.init")]
     steps, opened = [], set()
     texts = {}
@@ -43,23 +59,24 @@ def scenario(rng):
             uri = rng.choice(list(docs))
             deps = [(rng.choice(["lodash", "react"]), rng.choice(["4.17.20", "^4.17.21", "17.0.0", "^18.0.0", "9.9.9", "latest", "junk"]))
                     for _ in range(rng.below(3))]
-            text = pj(deps)
-            L.append(vlib.line("l.parse", "npm", text))
+            text = text_of(uri, deps)
+            L.append(vlib.line("l.parse", eco_of(uri)[0], text))
             L.append(vlib.line("l.open" if uri not in opened else "l.change", uri, text))
             opened.add(uri); texts[uri] = text
-            pending_names += [n for n, _ in deps]
+            pending_names += [(eco_of(uri)[1], n) for n, _ in deps]
         else:
-            n = rng.choice(pending_names)
+            reg, n = rng.choice(pending_names)
             kind = rng.choice(["ok", "ok", "ok", "nf", "rl"])
-            L.append(vlib.line("l.reply", "npm", n, kind, *(V[n] if kind == "ok" else [])))
+            L.append(vlib.line("l.reply", reg, n, kind, *(V[n] if kind == "ok" else [])))
     # let everything finish: answer whatever is still parked, then settle
-    for n in ["lodash", "react"] * 3:
-        L.append(vlib.line("l.reply", "npm", n, "ok", *V[n]))
+    for reg in (["npm", "pnpm_catalog"] if P in docs else ["npm"]):
+        for n in ["lodash", "react"] * 3:
+            L.append(vlib.line("l.reply", reg, n, "ok", *V[n]))
     L.append(vlib.line("l.settle"))
     mark = len(L)
     # the property's yardstick: re-check the latest text against the final cache
     for uri, text in texts.items():
-        L.append(vlib.line("l.parse", "npm", text))
+        L.append(vlib.line("l.parse", eco_of(uri)[0], text))
         L.append(vlib.line("l.change", uri, text))
     L.append(vlib.line("l.dump"))
     return L, mark, texts
@@ -71,19 +88,19 @@ def fixed(steps):
     opened, texts = set(), {}
     for st in steps:
         if st[0] == "edit":
-            text = pj(st[2])
-            L.append(vlib.line("l.parse", "npm", text))
+            text = text_of(st[1], st[2])
+            L.append(vlib.line("l.parse", eco_of(st[1])[0], text))
             L.append(vlib.line("l.open" if st[1] not in opened else "l.change", st[1], text))
             opened.add(st[1]); texts[st[1]] = text
         elif st[0] == "close":
             L.append(vlib.line("l.close", st[1]))
             opened.discard(st[1]); texts.pop(st[1], None)
         else:
-            L.append(vlib.line("l.reply", "npm", st[1], st[2], *(V[st[1]] if st[2] == "ok" else [])))
+            L.append(vlib.line("l.reply", st[3] if len(st) > 3 else "npm", st[1], st[2], *(V[st[1]] if st[2] == "ok" else [])))
     L.append(vlib.line("l.settle"))
     mark = len(L)
     for uri, text in texts.items():
-        L.append(vlib.line("l.parse", "npm", text))
+        L.append(vlib.line("l.parse", eco_of(uri)[0], text))
         L.append(vlib.line("l.change", uri, text))
     L.append(vlib.line("l.dump"))
     return L, mark, texts
@@ -99,6 +116,10 @@ WITNESSES = [
     # the document whose task fetches is closed before the reply: the other document must still converge
     [("edit", A, [("lodash", "4.17.20")]), ("edit", B, [("lodash", "4.17.21")]), ("close", A), ("reply", "lodash", "ok")],
     [("edit", A, [("lodash", "4.17.20")]), ("close", A), ("edit", A, [("lodash", "4.17.21")]), ("reply", "lodash", "ok")],
+    # documents of two registry types that name the same package: each is re-checked by its OWN parser and matcher, whoever fetched
+    [("edit", P, [("lodash", "4.17.20")]), ("reply", "lodash", "ok", "pnpm_catalog"), ("edit", A, [("lodash", "4.17.20")]), ("reply", "lodash", "ok")],
+    [("edit", A, [("lodash", "4.17.20")]), ("edit", P, [("lodash", "^4.17.21"), ("react", "17.0.0")]), ("reply", "lodash", "ok"),
+     ("reply", "lodash", "ok", "pnpm_catalog"), ("reply", "react", "nf", "pnpm_catalog")],
 ]
 
 
